@@ -1,3 +1,5 @@
+import TrustVerif.Generated.C17Allow
+
 /-
 Model of the debugger monitor of trust-runtime (property C17).
 
@@ -569,5 +571,89 @@ def ASys.okLabel (s : ASys) : ALabel → Bool
 def ASys.runOk (s : ASys) : List ALabel → Bool
   | [] => true
   | l :: ls => s.okLabel l && ASys.runOk (astep s l) ls
+
+/-! ## Third surface: expressions evaluated by the debugger (watch expressions, breakpoint
+conditions, logpoint fragments, assignment targets)
+
+`crates/trust-runtime/src/harness/parse.rs`: `parse_debug_expression` / `parse_debug_lvalue` reject an
+expression when `expression_has_side_effects` says so; everything they accept is later evaluated by
+the hook on the LIVE evaluation context of the cycle thread (`update_watch_snapshot`,
+`matches_breakpoint`), so this guard is what keeps those evaluations from changing program state. -/
+
+/-- The part of the syntax tree the guard looks at: calls (with the name `call_target_name_node`
+resolves for the call target — `none` when there is no target expression or it is neither a name
+nor a field access over a name) and any other node with its children. -/
+inductive DExpr
+  | leaf
+  | node (children : List DExpr)
+  | call (target : Option String) (children : List DExpr)
+
+mutual
+/-- `node.descendants().filter(|c| c.kind() == CallExpr)`: the targets of all calls, pre-order. -/
+def DExpr.calls : DExpr → List (Option String)
+  | .leaf => []
+  | .node cs => callsList cs
+  | .call t cs => t :: callsList cs
+def callsList : List DExpr → List (Option String)
+  | [] => []
+  | e :: es => e.calls ++ callsList es
+end
+
+/-- `split_once(sep)`. -/
+def splitOnce (s sep : String) : Option (String × String) :=
+  match s.splitOn sep with
+  | a :: b :: rest => some (a, sep.intercalate (b :: rest))
+  | _ => none
+
+def isBuiltinType (s : String) : Bool := Gen.builtinTypeNames.contains s
+
+/-- `is_conversion_name` = `parse_conversion_spec(name).is_some()` (stdlib/conversions/spec.rs), on the
+upper-cased name; the patterns are tried in the source order and the first that applies decides. -/
+def isConversionName (upper : String) : Bool :=
+  if upper == "TRUNC" then true
+  else if upper.startsWith "TRUNC_" then isBuiltinType (upper.drop 6).toString
+  else match splitOnce upper "_TRUNC_" with
+  | some (a, b) => isBuiltinType a && isBuiltinType b
+  | none =>
+  if upper.startsWith "TO_BCD_" then isBuiltinType (upper.drop 7).toString
+  else match splitOnce upper "_TO_BCD_" with
+  | some (a, b) => isBuiltinType a && isBuiltinType b
+  | none =>
+  if upper.startsWith "BCD_TO_" then isBuiltinType (upper.drop 7).toString
+  else match splitOnce upper "_BCD_TO_" with
+  | some (a, b) => isBuiltinType a && isBuiltinType b
+  | none =>
+  if upper.startsWith "TO_" then isBuiltinType (upper.drop 3).toString
+  else match splitOnce upper "_TO_" with
+  | some (a, b) => isBuiltinType a && isBuiltinType b
+  | none => false
+
+/-- `is_allowed_watch_call`. -/
+def isAllowedWatchCall (name : String) : Bool :=
+  let upper := name.toUpper
+  Gen.pureNames.contains upper || isConversionName upper || Gen.splitNames.contains upper
+
+/-- One iteration of the loop of `expression_has_side_effects`: does this call make it return `true`?
+(no target / unresolvable target name => `true`; name not on the allow-list => `true`). -/
+def offending (allowed : String → Bool) : Option String → Bool
+  | none => true
+  | some n => !allowed n
+
+/-- `expression_has_side_effects`: the loop returns `true` at the first offending call, `false` when
+every call passed. -/
+def hasSideEffects (allowed : String → Bool) (e : DExpr) : Bool := e.calls.any (offending allowed)
+
+/-- Independent of `calls`: the expression contains, anywhere, a call whose target resolves to `t`. -/
+inductive HasCall : DExpr → Option String → Prop
+  | here (t : Option String) (cs : List DExpr) : HasCall (.call t cs) t
+  | inCall (t' : Option String) (cs : List DExpr) (e : DExpr) (t : Option String) :
+      e ∈ cs → HasCall e t → HasCall (.call t' cs) t
+  | inNode (cs : List DExpr) (e : DExpr) (t : Option String) :
+      e ∈ cs → HasCall e t → HasCall (.node cs) t
+
+/-- Decidable guard of the partial theorem: no call of the expression resolves to a `SPLIT_*` name
+(those are on the allow-list although they write their output arguments). -/
+def noSplitCall (e : DExpr) : Bool :=
+  e.calls.all fun t => match t with | some n => !Gen.splitNames.contains n.toUpper | none => true
 
 end TrustVerif.C17
